@@ -230,6 +230,14 @@ fn run(ctx: &Ctx) -> Part {
                     let op = Op::FillContiguous { r, colors: Colors::Coded { base: 9, len } };
                     check(ctx, &mut acc, cfg, std::slice::from_ref(&op));
                 }
+                // a colour source whose size hint says "exactly the rectangle" although it yields more (and fewer)
+                let area = r.w as u64 * r.h as u64;
+                if area > 0 && area <= 64 {
+                    for len in [area + 3, area.saturating_sub(1)] {
+                        let op = Op::FillContiguous { r, colors: Colors::Hinted { base: 11, len, hint: area } };
+                        check(ctx, &mut acc, cfg, std::slice::from_ref(&op));
+                    }
+                }
                 let _ = (lw, lh);
                 check(ctx, &mut acc, cfg, &[Op::FillSolid { r, c: 3 }]);
             });
